@@ -22,6 +22,8 @@ pub enum Prim {
 pub struct SliceObs {
     pub keys: Vec<usize>,
     pub kids: Vec<(usize, Vec<(Lab, usize)>)>,
+    /// Debug text of the slice (implementation side only; empty on the model side)
+    pub debug: String,
 }
 
 /// What the implementation returned.
@@ -293,7 +295,7 @@ pub fn observe_slice(s: &dyn G) -> SliceObs {
             )
         })
         .collect();
-    SliceObs { keys, kids }
+    SliceObs { keys, kids, debug: s.debug() }
 }
 
 pub struct Runner {
@@ -536,7 +538,7 @@ impl Runner {
                     .iter()
                     .map(|k| (*k, self.m.get(*k).edges.clone()))
                     .collect();
-                Exp::Slice(SliceObs { keys, kids })
+                Exp::Slice(SliceObs { keys, kids, debug: String::new() })
             }
             Call::Merge { h, left } => {
                 if panicked.is_none() && matches!(ret, Ret::Merge(Ok(()))) {
